@@ -1,6 +1,8 @@
 import ObiVerif.Lemmas.Uniq
 import ObiVerif.Lemmas.UniqDemerge
 import ObiVerif.Lemmas.UniqSort
+import ObiVerif.Lemmas.UniqChunk
+import ObiVerif.Lemmas.UniqSteps
 /-!
 # C06 — dereplication conserves counts and merges exactly the identical records (property theorems)
 
@@ -508,6 +510,7 @@ example (h : Seq → Nat) (input : List Rec) : ChunksOK h input [group (hashC h)
 
 /-! ## non-vacuity (tests on a concrete input, not proofs of the property) -/
 
+
 def exO : Opts := { cats := ["s"], stats := ["s", "t"], na := "NA", noSingleton := false }
 def exIn : List Rec :=
   [ { id := "a", seq := [97, 99], cnt := none, attrs := [("s", "x"), ("t", "u")], merged := [] },
@@ -549,5 +552,102 @@ example : (uniq (fun _ => 0) exO2 exIn).map (fun r => r.merged.lookup "t") =
 example : (uniq (fun s => s.length) exO2 (demerge "t" (uniq (fun _ => 0) exO2 exIn))).map
       (fun r => (r.count, r.merged.lookup "t")) =
     [(4, some [("u", 3), ("w", 1)]), (2, some [("NA", 2)]), (1, some [("NA", 1)])] := by decide
+
+
+/-! ## third pass: the chunk stage loop by loop, the goroutines as a transition system, counts < 1
+
+`Model/UniqChunk.lean`: `Distribute` (per-record loop, batches of `size`, final flush), `ISequenceChunk` (memory),
+`ISequenceChunkOnDisk` (one file per code, lexical order of the names, `Load`, file layer as a parameter).
+`Model/UniqSteps.lean`: the chunk channel shared by `n` workers, their pushes on `iUnique`, the merge stage. -/
+
+/-- `Distribute`, every batch size, every partition of the input into batches: distinct codes, each output
+delivers exactly the records of its code in input order, no empty batch, every code of the input announced -/
+theorem distribute_exact (code : Rec → Nat) (size : Nat) (batches : List (List Rec)) :
+    ((distribute code size batches).map (·.1)).Nodup ∧
+    (∀ e ∈ distribute code size batches,
+      e.2.flatten = batches.flatten.filter (fun r => decide (code r = e.1)) ∧ e.2.flatten ≠ [] ∧
+      ∀ b ∈ e.2, b ≠ []) ∧
+    (∀ r ∈ batches.flatten, code r ∈ (distribute code size batches).map (·.1)) :=
+  distribute_spec code size batches
+
+/-- **`ChunksOK` is a theorem (memory mode)**: the hypothesis of `uniqL_refines` holds for the chunks the
+transcribed `ISequenceChunk` builds, pushed in any order, shared out between the workers in any way -/
+theorem chunks_ok_mem (h : Seq → Nat) (size : Nat) (batches : List (List Rec)) (ws : List (List (List Rec)))
+    (hp : ws.flatten.Perm ((chunkMem (fun r => h r.seq) size batches).map (·.2))) :
+    ChunksOK h batches.flatten ws :=
+  chunkMem_chunksOK h size batches ws hp
+
+/-- **`ChunksOK` is a theorem (on-disk mode)**: if the temporary directory can be made and the file layer gives
+back the records it was given (`RoundTrip`: property C02 for the FASTA / JSON-header layer), the chunk files
+re-read in any member order (`LoadOK`) are `ChunksOK`; no record is lost in a file -/
+theorem chunks_ok_disk {β : Type} (fl : FileLayer β) (okr : Rec → Prop) (hrt : RoundTrip fl okr)
+    (ld : List Rec → List Rec) (hl : LoadOK ld) (h : Seq → Nat) (size : Nat) (batches : List (List Rec))
+    (hok : ∀ r ∈ batches.flatten, okr r) :
+    ∃ cs, chunkDisk fl ld true (fun r => h r.seq) size batches = .ok cs ∧
+      ∀ ws : List (List (List Rec)), ws.flatten.Perm (cs.map (·.2)) → ChunksOK h batches.flatten ws :=
+  chunkDisk_chunksOK fl okr hrt ld hl h size batches hok
+
+/-- no usable temporary directory: the outcome is the error, never a (partial) result -/
+theorem disk_mkdir_error {β : Type} (fl : FileLayer β) (ld : List Rec → List Rec) (code : Rec → Nat) (size : Nat)
+    (batches : List (List Rec)) : chunkDisk fl ld false code size batches = .error "err" :=
+  chunkDisk_mkdir_fails fl ld code size batches
+
+/-- **the goroutines lose nothing and deliver nothing twice, for every interleaving**: a final state reachable
+from the chunks `cs` with `n` workers has shared out `cs` (every chunk to exactly one worker) and has delivered a
+permutation of `uniqL` on that sharing -/
+theorem pipeline_delivers (srt : Sorter) (o : Opts) (cs : List (List Rec)) (n : Nat) (s : Pipe.State)
+    (h : Pipe.Reach srt o (Pipe.init cs n) s) (hf : Pipe.final s = true) :
+    (s.ws.map (·.got)).flatten.Perm cs ∧ (Pipe.result o s).Perm (uniqL srt o (s.ws.map (·.got))) :=
+  Pipe.pipe_delivers srt o cs n s h hf
+
+/-- no deadlock: with at least one worker every reachable non-final state has an enabled move -/
+theorem pipeline_progress (srt : Sorter) (o : Opts) (cs : List (List Rec)) (n : Nat) (hn : 0 < n)
+    (s : Pipe.State) (h : Pipe.Reach srt o (Pipe.init cs n) s) (hf : Pipe.final s = false) :
+    ∃ s', Pipe.Step srt o s s' :=
+  Pipe.pipe_progress srt o cs n hn s h hf
+
+/-- **the whole of `IUniqueSequence`, no hypothesis about chunking or scheduling left**: for every sort, batch
+size of `Distribute`, partition of the input into batches, push order of the chunks, number of workers and
+interleaving of the goroutines, the delivered records correspond one to one, up to `ObsEq`, to the outputs of the
+functional model `uniq` (any chunk function `h'`), and without `--no-singleton` the total count is conserved -/
+theorem pipeline_refines (srt : Sorter) (hs : ValidSorter srt) (h h' : Seq → Nat) (o : Opts) (size : Nat)
+    (batches : List (List Rec)) (cs : List (List Rec))
+    (hcs : cs.Perm ((chunkMem (fun r => h r.seq) size batches).map (·.2))) (n : Nat) (s : Pipe.State)
+    (hr : Pipe.Reach srt o (Pipe.init cs n) s) (hf : Pipe.final s = true) (ok : InputOK o batches.flatten) :
+    (∀ out ∈ Pipe.result o s, ∃ out' ∈ uniq h' o batches.flatten, ObsEq o out out') ∧
+    (∀ out' ∈ uniq h' o batches.flatten, ∃ out ∈ Pipe.result o s, ObsEq o out' out) ∧
+    (o.noSingleton = false → total (Pipe.result o s) = total batches.flatten) := by
+  obtain ⟨hws, hperm⟩ := Pipe.pipe_chunksOK srt o h size batches cs hcs n s hr hf
+  obtain ⟨r1, r2⟩ := uniqL_refines srt hs h h' o batches.flatten _ hws ok
+  refine ⟨fun out hout => r1 out (hperm.mem_iff.mp hout), ?_, ?_⟩
+  · intro out' hout'
+    obtain ⟨out, ho, he⟩ := r2 out' hout'
+    exact ⟨out, hperm.mem_iff.mpr ho, he⟩
+  · intro hns
+    rw [total_perm hperm]
+    exact uniqL_total srt hs h o batches.flatten _ hws ok hns
+
+set_option maxRecDepth 8000 in
+/-- non-vacuity: a schedule-driven run of the transition system from two chunks of `exIn` is an execution that
+ends in a final state (test on one input) -/
+example : Pipe.final (Pipe.runSched sortStable exO [2, 0, 1, 1, 2, 0] 12
+    (Pipe.init [exIn.take 3, exIn.drop 3] 2)) = true := by decide
+
+/-! ### counts < 1 are outside the quantifier — and must be: counterexamples (each `decide` on one input) -/
+
+/-- a record with `count = 0` comes out with count 1 (`SetCount`: `if count < 1 { count = 1 }`): the total is
+not conserved -/
+theorem zero_count_not_conserved :
+    total (uniq (fun _ => 0) { cats := [], stats := [], na := "NA", noSingleton := false }
+      [{ id := "a", seq := [97], cnt := some 0, attrs := [], merged := [] }]) = 1 := by decide
+
+/-- with `count = 0` members the merged count depends on the order of the members (the intermediate sums are
+clamped): `[0, 0, 1]` gives 2, `[1, 0, 0]` gives 1 — so the hypothesis `1 ≤ r.count` of `InputOK` cannot be
+dropped from `uniq_count` / `uniq_perm` -/
+theorem zero_count_order_dependent :
+    let z (i : String) : Rec := { id := i, seq := [97], cnt := some 0, attrs := [], merged := [] }
+    let one : Rec := { id := "c", seq := [97], cnt := some 1, attrs := [], merged := [] }
+    (mergeClass "NA" [] [z "a", z "b", one]).map Rec.count = some 2 ∧
+    (mergeClass "NA" [] [one, z "a", z "b"]).map Rec.count = some 1 := by decide
 
 end ObiVerif.Props.C06
